@@ -241,8 +241,8 @@ func (w *World) runOp(op Op) {
 		w.spawn("add:"+p.spec.Name, op.Async, func() {
 			if delay > 0 {
 				simrt.Sleep(delay)
-				if !p.exists || p.uid != forUID {
-					return // the pod went away before its sandbox was set up
+				if !p.exists || p.uid != forUID || p.downUID == forUID {
+					return // the pod went away (or its teardown began) before its sandbox was set up
 				}
 			}
 			w.cniAdd(p, sandbox)
@@ -374,6 +374,7 @@ func (w *World) cniDelOne(p *podState, uid, sandbox string) error {
 func (w *World) podDown(p *podState, order string) {
 	// the runtime tears down every sandbox it created for the pod; each DEL names its sandbox,
 	// whatever happens to the pod's name meanwhile
+	p.downUID = p.uid
 	uid, sandbox := p.uid, append([]string{}, p.sbs...)
 	if len(sandbox) == 0 {
 		sandbox = []string{cid(p)}
@@ -938,6 +939,14 @@ func (w *World) checkRuntimeWrite() {
 		}
 		if v := st.Status[networkv1beta1.CNIStatusDeleted]; v != nil && v.LastUpdateTime.Time.After(seen.del) {
 			seen.del = v.LastUpdateTime.Time
+		}
+		if i, d := st.Status[networkv1beta1.CNIStatusInitial], st.Status[networkv1beta1.CNIStatusDeleted]; i != nil && d != nil {
+			switch {
+			case d.LastUpdateTime.Time.Equal(i.LastUpdateTime.Time):
+				seen.tied = true
+			case seen.tied && d.LastUpdateTime.Time.After(i.LastUpdateTime.Time):
+				seen.tied, seen.untiedAt = false, time.Now()
+			}
 		}
 		w.rtSeen[uid] = seen
 		fmt.Fprintf(&b, "%s[%s", uid, st.PodID)
